@@ -6,9 +6,11 @@ T: (main binding) every TLC layout and random layouts with up to 400 files are r
 R: black box - layouts with hundreds of files whose height spans do not overlap must run under RLIMIT_NOFILE = (minimum
    that lets the single-file layout of the same chain pass) + 3
 """
+import os
 import random
+import struct
 
-from lib import chains, layout, run, tracecheck
+from lib import btc, chains, datadir, layout, run, tracecheck
 
 
 def min_nofile(w, d, coin, lo=4, hi=64):
@@ -82,6 +84,24 @@ def main(ck, tier, w):
         blocks = chains.std_chain(n)
         pl = layout.random_placement(r0, n, nf, mode)
         d = layout.materialise(w.sub('dd'), blocks, pl, r0, fileno={f: f for f in range(nf)}, namer=lambda k: 'blk%05d.dat' % k)
+        if j[0] % 2 == 0:
+            # a node stopped during initial block download: block tip+1 known by header only, later blocks already stored
+            # (one appended to each of several files) but not connectable - they belong to no chain and must not keep files open
+            hole = datadir.mk_block(blocks[-1]['hash'], [btc.coinbase(n, btc.p2pkh(b'\x77' * 20))], t=1400000000, nonce=1)
+            d.record(hole['hdr'], n, btc.VALID_TREE, 0)
+            prev = hole['hash']
+            for k in range(min(nf, 12)):
+                ob = datadir.mk_block(prev, [btc.coinbase(n + 1 + k, btc.p2pkh(b'\x78' * 20))], t=1400000000 + k, nonce=k)
+                fno = (k * 7) % nf
+                with open(os.path.join(d.path, 'blk%05d.dat' % fno), 'ab') as f:
+                    pos = f.tell()
+                    f.write(struct.pack('<II', d.magic, len(ob['raw'])) + ob['raw'])
+                d.record(ob['hdr'], n + 1 + k, btc.VALID_TREE | btc.HAVE_DATA, 1, fno, pos + 8)
+                prev = ob['hash']
+            import shutil
+            shutil.rmtree(os.path.join(d.path, 'index'))
+            from lib.ldb import write_leveldb
+            write_leveldb(os.path.join(d.path, 'index'), sorted(d.kvs.items()))
         tr = w.sub('trace')
         r = layout.run_csv(w, d, 'bitcoin', s, e, trace=tr)
         peak = max([len(x['open']) for x in r.events if x['ev'] == 'fetched'] or [0])
